@@ -590,6 +590,12 @@ func mergeResult(a, b *WorkerResult) {
 	a.Validated += b.Validated
 	a.NViolations += b.NViolations
 	for k, v := range b.Counters {
+		if strings.HasPrefix(k, "max_") {
+			if v > a.Counters[k] {
+				a.Counters[k] = v
+			}
+			continue
+		}
 		a.Counters[k] += v
 	}
 	for k, v := range b.Outcomes {
